@@ -1322,6 +1322,9 @@ fn c10_case(ctx: &mut Ctx, files: &Files, trailing: bool, mode: Mode, inputs: Ve
         all.entry(o).or_insert_with(|| b"pre-existing output of a source that may not be processed\n".to_vec());
     }
     materialize(&root, &all, &[]);
+    // a symbolic link to a sub-directory: followed only by recursive scans (then it names a
+    // directory that is scanned anyway)
+    let _ = std::os::unix::fs::symlink("sub", root.join("lnk_sub"));
     let mut case = ProjectCase::simple(files.clone());
     case.trailing = trailing;
     case.threads = threads;
@@ -1460,8 +1463,12 @@ fn c10_cli_combos(ctx: &mut Ctx, files: &Files, trailing: bool) {
                         ctx.violation("C10:cli:verify-with-N-touched-output", format!("`txtpp {}` changed output {p} (exit {:?})", a.join(" "), o.code), cj.clone());
                     }
                 }
-                if !d.created.is_empty() && !stale {
-                    ctx.violation("C10:cli:verify-with-N-created", format!("`txtpp {}` created {:?}", a.join(" "), d.created), cj.clone());
+                // verify may (re)create temp targets of the processed sources, nothing else
+                let sel: BTreeSet<String> = model::sources(files).into_iter().collect();
+                let allowed = allowed_paths(files, &sel, true);
+                let bad: Vec<&String> = d.created.iter().filter(|p| outs.contains(p) || !allowed.contains(*p)).collect();
+                if !bad.is_empty() {
+                    ctx.violation("C10:cli:verify-with-N-created", format!("`txtpp {}` created {bad:?} (not temp targets)", a.join(" ")), cj.clone());
                 }
             } else if !d.created.is_empty() || !d.content.is_empty() {
                 ctx.violation("C10:cli:clean-with-N-created-or-modified", format!("`txtpp {}` created {:?} / modified {:?}", a.join(" "), d.created, d.content), cj.clone());
